@@ -30,4 +30,4 @@ for log in sorted(glob.glob("/tmp/vseed-log-*.txt")):
         r["superseded"] = mj["superseded"]
     res[sid] = r
 json.dump(res, open(rp, "w"), indent=1, sort_keys=True)
-print(len(res), "seed results;", sum(1 for r in res.values() if r["caught"]), "caught;", sum(1 for r in res.values() if not r["caught"] and r.get("superseded")), "superseded by a /repo fix;", [k for k, r in res.items() if not r["caught"] and not r.get("superseded")], "missed")
+print(len(res), "seed results;", sum(1 for r in res.values() if r["caught"]), "caught;", sum(1 for r in res.values() if not r["caught"] and r.get("superseded")), "not (or no longer) breaking the property;", [k for k, r in res.items() if not r["caught"] and not r.get("superseded")], "missed")
